@@ -847,9 +847,21 @@ func TestC13HTTP(t *testing.T) {
 				{Name: "h/block+1", Data: gen(8193, 5), Age: 500},
 				{Name: "k/d/e/nested name", Data: gen(300, 6), Age: 400},
 			}
-			res := envRun(conf, nil, nil, nil, func(r *rig) (string, string, string) {
+			want := map[string]string{}
+			for _, f := range conf.Files {
+				want[f.Name] = f.Data
+			}
+			res := envRun(conf, nil, func(r *rig) { r.wantBytes = want }, nil, func(r *rig) (string, string, string) {
 				if v := r.c01Final(); v != "" {
 					return v, "", ""
+				}
+				if r.byteViol != "" {
+					return fmt.Sprintf("compression %d, payload size %d: %s\n%s", level, bin, r.byteViol, r.traceString()), "", ""
+				}
+				for _, w := range r.wire { // nothing is injected here: a correctly encoded payload must be accepted
+					if w.Kind == "data" && w.Err != "" {
+						return fmt.Sprintf("compression %d, payload size %d: a data request failed although nothing was injected: %s\n%s", level, bin, w.Err, r.traceString()), "", ""
+					}
 				}
 				if g := r.c03Goal(); g != "" {
 					return fmt.Sprintf("compression %d, payload size %d: %s\n%s", level, bin, g, r.traceString()), "", ""
